@@ -1,10 +1,10 @@
 package main
 
 import (
-	"strconv"
 	"go/token"
 	"go/types"
 	"regexp"
+	"strconv"
 
 	"golang.org/x/tools/go/ssa"
 )
@@ -495,6 +495,9 @@ func checkC15(c *Ctx) {
 				case *ssa.Slice:
 					return fromSum(x.X, fr, d+1)
 				case *ssa.Call:
+					if isCloneCall(x) {
+						return fromSum(x.Call.Args[0], fr, d+1)
+					}
 					if bi, ok := x.Call.Value.(*ssa.Builtin); ok && bi.Name() == "append" && len(x.Call.Args) == 2 {
 						return fromSum(x.Call.Args[1], fr, d+1)
 					}
@@ -692,6 +695,9 @@ func freshByteSlice(v ssa.Value) bool {
 	case *ssa.MakeSlice:
 		return true
 	case *ssa.Call:
+		if isCloneCall(x) {
+			return true // bytes.Clone / slices.Clone: a new slice
+		}
 		if bi, ok := x.Call.Value.(*ssa.Builtin); ok && bi.Name() == "append" && len(x.Call.Args) >= 1 {
 			base := stripConv(x.Call.Args[0])
 			if isNilConst(base) {
@@ -806,4 +812,17 @@ func indexedByField(v *IView, val ssa.Value, fr *ivFrame, recv *ssa.Parameter, p
 		}
 	}
 	return false
+}
+
+// isCloneCall: bytes.Clone(x) / slices.Clone(x) — the standard "fresh copy of x".
+func isCloneCall(c *ssa.Call) bool {
+	f := c.Call.StaticCallee()
+	if f == nil || len(c.Call.Args) != 1 {
+		return false
+	}
+	if o := f.Origin(); o != nil {
+		f = o
+	}
+	pk := fnPkgPath(f)
+	return f.Name() == "Clone" && (pk == "bytes" || pk == "slices")
 }
